@@ -49,7 +49,7 @@ def generate(seed, run, tier):
             # reads before the first reset must raise
             ops.append([c, r.choice(['read_state', 'read_obs_raw', 'outer_read'])])
         if r.random() < 0.8:
-            ops.append([c, 'set_seed', r.randrange(2**31)])
+            ops.append([c, 'set_seed', W.gen_seed(r)])
     while len(ops) < n:
         c = r.randrange(ncl)
         if not started[c]:
@@ -75,7 +75,7 @@ def generate(seed, run, tier):
             if r.random() < 0.3:
                 ops.extend(_fault(r, c))
         elif m < 0.93:
-            ops.append([c, 'set_seed', r.randrange(2**31)])
+            ops.append([c, 'set_seed', W.gen_seed(r)])
         elif m < 0.965:
             # a planner uses the functional interface of the same environment object between stateful calls
             ops.append([c, 'lookahead', r.randrange(64), r.randrange(64), r.choice(['step', 'obs', 'both'])])
